@@ -1105,6 +1105,52 @@ class Extractor {
     }
     J.raw("}");
     varJson.push_back(std::move(J.s));
+    EmitVarInit(VD);
+  }
+
+  // the initialiser of a namespace-scope / static variable as a pseudo function (no CFG): rules that scan
+  // call sites (deny-lists, who-may-call) must see what runs during static initialisation
+  void EmitVarInit(const VarDecl* VD) {
+    if (!VD->hasInit() || VD->getInit()->isValueDependent() || VD->getInit()->isTypeDependent()) {
+      return;
+    }
+    FnCtx X;
+    unsigned line = 0, col = 0;
+    X.file = FileOf(VD->getLocation(), &line, &col);
+    unsigned body = IdOf(X, VD->getInit());
+    Json J;
+    J.raw("{\"key\":");
+    J.num(S("init:" + Mangle(VD)));
+    J.raw(",\"qn\":");
+    J.num(S(VD->getQualifiedNameAsString() + "(init)"));
+    J.raw(",\"n\":");
+    J.num(S("(init)"));
+    J.raw(",\"file\":");
+    J.num(S(X.file));
+    J.raw(",\"line\":");
+    J.num(line);
+    J.raw(",\"eline\":");
+    J.num(line);
+    J.raw(",\"ret\":");
+    J.num(S(TypeStr(VD->getType())));
+    J.raw(",\"varinit\":1,\"params\":[],\"body\":");
+    J.num(body);
+    J.raw(",\"cfg\":null,\"locals\":[");
+    for (size_t i = 0; i < X.locals.size(); ++i) {
+      if (i) {
+        J.raw(",");
+      }
+      J.raw(X.locals[i]);
+    }
+    J.raw("],\"nodes\":[");
+    for (size_t i = 0; i < X.nodes.size(); ++i) {
+      if (i) {
+        J.raw(",");
+      }
+      J.raw(X.nodes[i]);
+    }
+    J.raw("]}");
+    fnJson.push_back(std::move(J.s));
   }
 };
 
